@@ -68,13 +68,13 @@ _B = {
     "read": "read-path bundle (KEY-1, VERD-1, GRD-3, GRD-13, SRC-1/2, OWN-10/11, filter bundle PAIR-5/5b, AGR-1, GRD-8, GRD-15, GRD-7)",
     "retain": "retention bundle (GRD-2, ORD-7, GRD-10, GRD-14, GRD-19, GRD-17, PAIR-9, ACC-1, ORD-3)",
     "live": "liveness bundle (GRD-5, PAIR-1, cache eviction)",
-    "recover": "recovery bundle (ORD-8c, ROLE-4, GRD-11, GRD-12, TS-1, GRD-6)",
+    "recover": "recovery bundle (GRD-1, ORD-6, ORD-8c, ROLE-4, GRD-11, GRD-12, TS-1, GRD-6, FS-1, GRD-22)",
     "filter": "filter bundle (PAIR-5/5b, AGR-1, GRD-8, GRD-15, GRD-7)",
     "nopanic": "assertion bundle (PAIR-9, GRD-16, ROLE-5, GRD-14 non-empty, PAIR-10, ORD-17)",
 }
 _USE = {"C01": ["read", "retain", "live", "recover"], "C03": ["read", "retain", "live"], "C04": ["read", "retain", "live"],
         "C05": ["read", "retain", "live"], "C06": ["read", "retain", "live", "recover"], "C07": ["read", "retain", "live"],
-        "C02": ["recover"], "C16": ["recover"], "C13": ["filter"], "C09": ["nopanic"], "C10": ["nopanic"]}
+        "C02": ["recover"], "C08": ["recover"], "C16": ["recover"], "C13": ["filter"], "C09": ["nopanic"], "C10": ["nopanic"]}
 BUNDLES = {p: "; plus the shared " + ", ".join(_B[b] for b in bs) + " (DESIGN.md §11.2b)" for p, bs in _USE.items()}
 
 NA = {}
